@@ -1504,13 +1504,23 @@ if __name__ == "__main__":
                  "straddling DENSE_THRESHOLD; distinct = distinct (kind, exit, m_max, path) signatures; non-trivial = "
                  "breakdown / converged / exhausted with m_max > 1; heff-* kinds: random dyadic-rational tensors with dims 1..3 "
                  "(independent in/out bond dims in half of the cases, physical dims 2 and 3, o != p in 30%), chains of 2..4 sites, "
-                 "local sizes DENSE_THRESHOLD-2..+2, distinct = distinct dimension tuples per request kind",
+                 "local sizes DENSE_THRESHOLD-2..+2, distinct = distinct dimension tuples per request kind; "
+                 "polyexact: Hermitian (Lanczos) / general complex (Arnoldi) operators n = 6..40, |dt|*||A|| 0.3..3, the module's exp replaced by a random "
+                 "polynomial of the largest degree the theorem covers (k - 1), every return path forced (converged at a chosen iteration, cached, fresh, "
+                 "breakdown from an invariant start), distinct = (routine, path, k, degree); apriori: n = 6..100, |dt| * half spectral width 0.1..8, spectra "
+                 "centred or shifted by up to 30 half widths, m_max 2..40, tol 1e-12..1e-2, non-trivial = proved bound below 1e-2",
             trusted_base=["scipy.linalg.expm / numpy eigh as reference in the oracles",
                           "cited, not formalised: Hochbruck-Lubich error bound of the Krylov approximation (SIAM J. Numer. Anal. 34, 1997)",
-                          "modelled, not verified: scipy.linalg.eigh_tridiagonal, scipy.linalg.expm of the small problem (spec-tied each run)"],
+                          "modelled, not verified: scipy.linalg.eigh_tridiagonal, scipy.linalg.expm of the small problem (spec-tied each run)",
+                          "proved (xp19): a-priori bound 2 |vec| tail_m(|dt| ||A - c||_2) of the Lanczos approximation in exact arithmetic (krylov_error_bound_shift); "
+                          "the sharper Hochbruck-Lubich rate and the effect of rounding (loss of orthogonality) remain cited / measured"],
             assumptions=["beta_j handed to the model are the entries of the function's own `beta` array (binary64, exact rationals); "
                          "phi_j is recomputed from the eigen-solver's output with the code's formula",
                          "k is the number of operator applications; the exit kind is derived from (fresh call, k, m_max)",
+                         "polyexact: the scalar function the real code applies to the Ritz values is replaced through the module attribute `np` (Lanczos) / "
+                         "`scipy.linalg.expm` (Arnoldi); the convergence exit is forced through the module-level name `abs` with tol = 0; nothing else of the "
+                         "routine is touched; the reference q(-i dt A) vec is Horner on the dense matrix",
+                         "apriori: ||A - c||_2 and ||T - c||_2 are numpy 2-norms, c = midpoint of numpy's eigvalsh spectrum; tail_m(x) is summed term by term",
                          "heff-* kinds: tensors are sent to the model entry by entry in row-major order of their numpy shape; the answer of the real "
                          "code is read entry by entry from the array it returned (shape included)"],
             spec=spec)
